@@ -213,9 +213,12 @@ def run_threads(case):
     def body():
         from websocket import _app  # noqa: F401  (make sure fakes cover every module)
 
-        ws = websocket.WebSocket()
-        ws.settimeout(6.0)
-        ws.connect("ws://c12.test/")
+        if case.get("entry") == "create_connection":
+            ws = websocket.create_connection("ws://c12.test/", timeout=6.0)  # (thread-safe by default, like WebSocket())
+        else:
+            ws = websocket.WebSocket()
+            ws.settimeout(6.0)
+            ws.connect("ws://c12.test/")
         hs_len[0] = len(net.sockets[0].sent)
         if case.get("accept"):
             net.sockets[0].accept = list(case["accept"])  # short writes start after the handshake (handshake writes are C10's subject)
@@ -324,7 +327,7 @@ msg = st.tuples(st.sampled_from(["text", "binary", "ping"]), st.just(""), st.sam
 @st.composite
 def thread_cases(draw):
     mode = draw(st.sampled_from(["senders", "senders", "receivers", "mixed", "frame-receivers"]))
-    c = {"mode": mode, "choices": draw(st.lists(st.integers(0, 3), max_size=60))}
+    c = {"mode": mode, "choices": draw(st.lists(st.integers(0, 3), max_size=60)), "entry": draw(st.sampled_from(["WebSocket", "WebSocket", "create_connection"]))}
     if draw(st.integers(0, 2)):
         c["preempt"] = {str(draw(st.integers(1, 2500))): draw(st.integers(1, 3)) for _ in range(draw(st.integers(1, 3)))}
     if mode in ("senders", "mixed"):
